@@ -81,6 +81,11 @@ CHECKS["C07"] = dict(engine="vsearch",
   text="Exactness in the small regime is decided by TLC's TopKSets on every replayed step; on larger indexes TLC recomputes for every recorded query how many live vectors are strictly nearer than each returned id and checks per-phase recall for ef>=50, default ef and self-retrieval.",
   note="Floors (euclid 85/65/55, cosine 50/25/35 %) are regression detectors fixed >= 11 / >= 21 points below minima measured over 3x80 traces; graph levels are random, so a replay may need repetition; float data and dimensions above 8 not covered. Open finding KF-C07-1 (block path never links batch-mates). Built by a sub-agent.", ref="6 C07")
 
+CHECKS["C09"] = dict(engine="text-index",
+  technique="TLC on TextIdx.tla (abstract corpus of bags over 4 terms beside an implementation-shaped text index - postings, TotalDocs, DocLengths, TotalDocLength, id maps - maintained incrementally by transcriptions of AddMetadata/removeOldIndexEntries/DeleteMetadata and rebuilt by transcriptions of LoadFromSnapshot, replayAOF aggregate+apply, RewriteAOF and Compress; Inv_StatsFresh, Inv_IdMap, Inv_Candidates, Inv_RestartFresh over every history of the bound, over a history-free state cover and over random walks; exact integer vector order on the lattice; fusion as order predicates) + every TLC history replayed on a real engine (english/italian analyser, terms bound at run time to single-token words): FindIDsByTextSearch set/score/order and VSearch/VSearchGraph (explicit text and CONTAINS form, alpha 0/0.5/1, text-only, allow-list, small k) after every step; sampled real searches judged back by TLC (Trace_TextIdx.tla)",
+  text="TLC checks that the incrementally maintained statistics equal the from-scratch ones in every state reachable by add / overwrite / delete / re-add / snapshot / restart (log, snapshot, snapshot+log) / compaction / compression within 3 documents x 4 terms x tf <= 2. Each history is executed on the real engine: result set = Candidates(q) for all 15 term subsets, each score = BM25(k1 1.2, b 0.75, Lucene idf) evaluated by the harness from the spec's integers within 1e-9, non-increasing order; alpha = 1 => exact vector order, alpha = 0 => text order, text-only => text order cut at k, alpha = 0.5 => alpha/(1+d) + (1-alpha)*bm25/max within 1e-9.",
+  note="The real-valued formulas are evaluated outside TLA+ (TLC has no reals): the spec decides the integers, the candidate sets, the vector order and the order constraints. Queries are term sets; one text field; 3 documents on an integer lattice. alpha = 0.5 is compared with the formula only for k >= live documents. The stemmers themselves are out of the oracle (C20). Sequential restarts only. Built by a sub-agent.", ref="6 C09")
+
 NOT_YET = {}
 
 def main():
@@ -116,6 +121,7 @@ def main():
             {"name": "paths", "path": "spec/Paths.tla + tools/check_C11.py + harness/cmd/vpaths", "serves_properties": ["C11"], "kind_free_text": "TLA+ reachability/shortest-path definitions + algorithm transcriptions; graphs replayed on the real engine"},
             {"name": "text-rag", "path": "spec/Split.tla + spec/Compress.tla + spec/Adaptive.tla + tools/check_C20.py + harness/cmd/c20", "serves_properties": ["C20"], "kind_free_text": "TLA+ transcriptions of splitter/compressor/retriever, every case executed on the real code"},
             {"name": "vsearch", "path": "spec/Search.tla + spec/SearchLayer.tla + spec/Trace_Search.tla + tools/search_checks.py + harness/cmd/vsearch", "serves_properties": ["C06", "C07"], "kind_free_text": "TLA+ search oracle (admissible sets, exact top-k), histories replayed on the real engine, recall traces validated by TLC"},
+            {"name": "text-index", "path": "spec/TextIdx.tla + spec/Trace_TextIdx.tla + tools/check_C09.py + harness/cmd/vtext", "serves_properties": ["C09"], "kind_free_text": "TLA+ text index (incremental vs from-scratch statistics, restart rebuilds), histories replayed on the real engine with BM25/fusion judged"},
             {"name": "decay", "path": "spec/Decay.tla + tools/check_C15.py + harness/cmd/c15decay", "serves_properties": ["C15"], "kind_free_text": "TLA+ case analysis, one implementation test per TLC state"},
             {"name": "http-conformance", "path": "spec/Http.tla + tools/check_C19.py + harness/cmd/vhttp", "serves_properties": ["C19"], "kind_free_text": "TLA+ request/FS model, cases replayed on the real server"},
             {"name": "kektor-engine", "path": "spec/Kektor.tla + tools/engine_checks.py + harness/internal/eng", "serves_properties": ["C01", "C02", "C04", "C05", "C10", "C12"],
